@@ -21,7 +21,10 @@ def gen_case(rng):
         opts["paths"] = ["./" + rng.choice(top) if top else ".", "."]
     opts["exclude_patterns"] = rng.choice([None, None, ["*.pyc"], ["lib"], ["*.txt", "a"], ["src/"], ["**/x"]])
     opts["lstrip_paths"] = rng.choice([None, None, None, ["src/"], ["lib/", "src/"], ["./"], ["a"]])
-    return {"before": fstree.spec_json(spec), "after": fstree.spec_json(after), "log": log, "opts": opts}
+    case = {"before": fstree.spec_json(spec), "after": fstree.spec_json(after), "log": log, "opts": opts}
+    if rng.random() < 0.15:
+        case["hash_variant"] = {"i": rng.randrange(1000), "kind": rng.choice(["sha512_only", "sha1_only", "extra_algorithm", "empty_record"])}
+    return case
 
 
 def run_case(ctx, case, model=None):
@@ -57,6 +60,16 @@ def run_case(ctx, case, model=None):
                 return None, None, {"err": "record:" + str(mp.get("err") or ma.get("err"))}   # prefix collision ...: C10's business
         else:
             P, A = mp["ok"], ma["ok"]
+        hv = case.get("hash_variant")
+        if hv and P:
+            # the link's record of one product carries other hash algorithms than a fresh recording computes:
+            # records are compared as a whole, so that product is reported as differing
+            import hashlib
+            k = sorted(P)[hv["i"] % len(P)]
+            h512 = hashlib.sha512(k.encode("utf-8", "surrogateescape")).hexdigest()
+            P = dict(P)
+            P[k] = {"sha512_only": {"sha512": h512}, "sha1_only": {"sha1": h512[:40]}, "extra_algorithm": dict(P[k], sha512=h512),
+                    "empty_record": {}}[hv["kind"]]
         link = Link(name="x", products=P)
         try:
             with fstree.in_dir(root + "/t1"):
@@ -116,6 +129,50 @@ def pinned_cases():
     return out
 
 
+ROUNDTRIP_TREES = [
+    # directories with CR / CRLF / binary content below dir: and plain paths (no symbolic links: recording follows
+    # linked directories, the comparison does not — a documented difference of the two entry points)
+    {"build": ["d", {"app.bin": ["f", "a\r\nb\rc\n"], "sub": ["d", {"x.txt": ["f", "x\r\n"], "y": ["f", "\r"]}]}],
+     "src": ["d", {"main.c": ["f", "int main;\r\n"]}], "top.txt": ["f", "t\n"]},
+    {"build": ["d", {"only.lf": ["f", "a\nb\n"]}], "src": ["d", {"crlf.txt": ["f", "\r\n\r\n"]}], "top.txt": ["f", "\r"]},
+]
+
+
+def roundtrip_stream(ctx):
+    """a link recorded by in_toto_run itself, compared with the untouched tree (nothing may be reported) and with
+    the tree after one edit inside each recorded artifact (exactly that artifact is reported as differing)"""
+    import in_toto.runlib as rl
+    out = []
+    for ti, tree in enumerate(ROUNDTRIP_TREES):
+        for products in (["dir:build", "src", "top.txt"], ["dir:build"], ["build", "dir:src"], ["."]):
+            for dsse in (False, True):
+                with fstree.scratch(ctx, "c19rt") as root:
+                    fstree.materialize(fstree.spec_from_json(tree), root + "/t")
+                    rec = {"tree": ti, "products": products, "dsse": dsse}
+                    try:
+                        with fstree.in_dir(root + "/t"):
+                            md = rl.in_toto_run("rt", [], products, ["true"], use_dsse=dsse)
+                            same = rl.in_toto_match_products(md.get_payload(), paths=products)
+                            rec["untouched"] = [sorted(x) for x in same]
+                            with open("build/app.bin" if ti == 0 else "build/only.lf", "ab") as f:
+                                f.write(b"!")
+                            after = rl.in_toto_match_products(md.get_payload(), paths=products)
+                            rec["edited"] = [sorted(x) for x in after]
+                    except Exception as e:  # noqa
+                        rec["err"] = type(e).__name__
+                    name = "build/app.bin" if ti == 0 else "build/only.lf"
+                    want = "dir:build" if "dir:build" in products else name
+                    rec["bad"] = None
+                    if "err" in rec:
+                        rec["bad"] = "round trip raised " + rec["err"]
+                    elif rec["untouched"] != [[], [], []]:
+                        rec["bad"] = "a link recorded by in_toto_run does not match the untouched tree: %r" % (rec["untouched"],)
+                    elif rec["edited"] != [[], [], [want]]:
+                        rec["bad"] = "after editing %s the report is %r, expected differ=[%s] only" % (name, rec["edited"], want)
+                    out.append(rec)
+    return out
+
+
 def run(ctx):
     n = 2500 if ctx.thorough() else 500
     core.check_props(ctx, ["Props/C19.v"])
@@ -145,8 +202,12 @@ def run(ctx):
     for i in mism[:5]:
         ctx.violation("match-products: implementation %r, model (= proved partition) %r" % (impl[i], ans[i]),
                       {"case": kept[i], "P": reqs[i][1]["P"], "A": reqs[i][1]["A"], "impl": impl[i], "model": ans[i]})
+    rt = roundtrip_stream(ctx)
+    rt_bad = [r for r in rt if r["bad"]]
+    for r in rt_bad[:3]:
+        ctx.violation("match-products round trip: " + r["bad"], {"roundtrip": r})
     broken = ctx.broken_obligations()
-    if broken and not mism:
+    if broken and not mism and not rt_bad:
         ctx.violation("broken obligation(s): " + "; ".join(n for n, _ in broken),
                       {"broken": [{"name": n, "detail": d} for n, d in broken]}, no_input=True)
     nonempty = sum(1 for o in impl if "ok" in o and any(o["ok"]))
@@ -168,12 +229,27 @@ def run(ctx):
         "programs": 1, "disagreements_checked": len(reqs), "mismatches": len(mism),
         "recording_failed_skipped": rec_fail, "cases_with_nonempty_report": nonempty, "report_kinds": kinds,
         "kernel_sample_cases": kn,
+        "roundtrip_through_in_toto_run": {"cases": len(rt), "violations": len(rt_bad)},
     }
     return core.finish(ctx, "proof", cov, [
         "theorems about Model/Match.v; tie: differential run of the real library function on real file trees"])
 
 
 def replay(ctx, obj):
+    if "roundtrip" in obj["replay"]:
+        want = obj["replay"]["roundtrip"]
+        bad = [r for r in roundtrip_stream(ctx) if r["bad"] and (r["tree"], r["products"], r["dsse"]) ==
+               (want["tree"], want["products"], want["dsse"])]
+        for r in bad:
+            print("  -> " + r["bad"])
+        if bad:
+            print("VIOLATION property=C19 replay=%s" % obj.get("rerun", "").split()[-1])
+            return 1
+        print("agree")
+        return 0
+    if "case" not in obj["replay"]:
+        print("no input in this replay file (broken obligation): rerun ./check C19")
+        return 1
     c = obj["replay"]["case"]
     P, A, out = run_case(ctx, c)
     model = core.Model()
